@@ -29,21 +29,34 @@ def walk_fuel(docs):
 
 
 MUTATION_DRILLS = [
+    # each: applied in the scratch worktree /var/tmp/wt-c14 (at /repo HEAD 89053cb), `VERIF_REPO=/var/tmp/wt-c14
+    # VERIF_CACHE=/var/tmp/rime-verif-c14 bin/check C14 quick`; the repository's own 87 gtests were run on the same mutated tree
     {"mutation": "config_cow_ref.h ConfigCowRef::SetItem: copy the container only when it is null (write in place otherwise)",
-     "passes_existing_tests": False, "ran": "VERIF_REPO=/var/tmp/wt-c14 bin/check C14 quick",
-     "fired": "VIOLATION source-changed:* and spec-mismatch:* (sibling includer / included source changed), replay with the documents"},
+     "existing_tests": "4 config tests fail", "fired": "VIOLATION source-changed:* and spec-mismatch:* with the document set (found input)"},
     {"mutation": "config_compiler.cc ParseList: walk the __patch list from the last element to the first",
-     "passes_existing_tests": False, "ran": "same", "fired": "VIOLATION spec-mismatch:* (found input)"},
-    {"mutation": "config_compiler.cc InsertByPriority: std::lower_bound instead of upper_bound (reverses the order inside a priority class)",
-     "passes_existing_tests": False, "ran": "same", "fired": "VIOLATION spec-mismatch:* (found input)"},
+     "existing_tests": "RimeConfigCompilerTest.PatchList fails", "fired": "VIOLATION spec-mismatch:patch+append ... (found input)"},
+    {"mutation": "config_compiler.cc InsertByPriority: std::lower_bound instead of upper_bound (reverses the order inside a class)",
+     "existing_tests": "RimeConfigCompilerTest.PatchList fails", "fired": "VIOLATION spec-mismatch:* (found input)"},
     {"mutation": "config_compiler.cc AppendToList: start from an empty list instead of a copy of the existing one (/+ replaces)",
-     "passes_existing_tests": False, "ran": "same", "fired": "VIOLATION spec-mismatch:* (found input)"},
+     "existing_tests": "4 merge tests fail", "fired": "VIOLATION spec-mismatch:include+patch+append ... (found input)"},
     {"mutation": "config_data.cc ResolveListIndex: @before N resolves to N+1",
-     "passes_existing_tests": True, "ran": "same", "fired": "VIOLATION spec-mismatch:*+index* (found input), impl-model-mismatch"},
-    {"mutation": "config_compiler.cc IncludeReference::Resolve: a missing optional reference is an error",
-     "passes_existing_tests": False, "ran": "same", "fired": "VIOLATION spec-mismatch:* / saved-file-differs:* (found input)"},
+     "existing_tests": "RimeConfigListKeyPathTest.Greetings fails", "fired": "VIOLATION spec-mismatch:include+patch+index (found input), impl-model-mismatch"},
+    {"mutation": "config_compiler.cc IncludeReference::Resolve: a missing optional include is an error",
+     "existing_tests": "all 87 pass", "fired": "VIOLATION spec-mismatch:* / saved-file-differs:* (found input)"},
+    {"mutation": "config_compiler.cc PatchReference::Resolve: a missing optional patch is an error",
+     "existing_tests": "all 87 pass", "fired": "VIOLATION spec-mismatch:* / saved-file-differs:* (found input)"},
     {"mutation": "config_compiler_impl.h: kInclude = 2, kPatch = 1 (patches before includes)",
-     "passes_existing_tests": False, "ran": "same", "fired": "VIOLATION spec-mismatch:* (found input)"},
+     "existing_tests": "RimeConfigMergeTest.AppendWithPatch fails", "fired": "VIOLATION spec-mismatch:* (found input)"},
+    {"mutation": "auto_patch_config_plugin.cc: add the automatic .custom patch even when the root has an explicit __patch",
+     "existing_tests": "all 87 pass", "fired": "VIOLATION spec-mismatch:*custom*, source-changed:* (found input)"},
+    {"mutation": "config_compiler.cc IsMerging: ignore the /= suffix (replace merges instead)",
+     "existing_tests": "all 87 pass", "fired": "VIOLATION spec-mismatch:*replace* (found input)"},
+    {"mutation": "config_compiler.cc IncludeReference::Resolve: merge the included map over the local keys (included wins)",
+     "existing_tests": "2 tests fail", "fired": "VIOLATION spec-mismatch:include (found input)"},
+    {"mutation": "build_info_plugin.cc before 24599a7 (unchanged tree at the time): __build_info written in place into a shared root map",
+     "existing_tests": "all pass", "fired": "VIOLATION source-changed:* (found input) - genuine defect, fixed"},
+    {"mutation": "config_compiler.cc before 89053cb (unchanged tree at the time): `loaded` checked only on the first reference to a missing resource",
+     "existing_tests": "all pass", "fired": "VIOLATION spec-mismatch:include+patch+custom on the targeted family custom-without-base (found input) - genuine defect, fixed"},
 ]
 
 
